@@ -198,7 +198,17 @@ class QueueProcessorMixin:
 
         logger.debug("Handling %s (execution=%s)", get_message_type_name(message), execution_id or "N/A")
 
-        handler.handle(message)
+        try:
+            handler.handle(message)
+        except Exception:
+            # The handler may have committed its effects and its processed
+            # record before it failed (post-commit work: audit, event bus).
+            # The filter has to know the id, or an authoritative filter calls
+            # the redelivery "definitely new" and the handler runs again. A
+            # positive only costs the durable check.
+            if self.config.enable_deduplication and message_id is not None:
+                get_deduplicator().mark_seen(message_id)
+            raise
 
         # Mark message as processed for deduplication
         if self.config.enable_deduplication and message_id is not None:
